@@ -839,7 +839,7 @@ fn fork_scenario(rng: &mut StdRng, sc: usize, out: Box<dyn std::io::Write>, kv: 
 /// block download and indexing, a second set_scripts, check point finalisation, a shallow fork
 /// switch with rollback) is run once to count the storage writes W, then once per crash point k:
 /// the k-th write aborts the process, the store is reopened and honest syncing continues.
-fn crash_history(seed: u64, sc: usize, k: Option<usize>, out: Box<dyn std::io::Write>, kv: &HashMap<String, String>) -> (Box<dyn std::io::Write>, u64, Vec<String>, usize) {
+fn crash_history(seed: u64, sc: usize, k: Option<usize>, out: Box<dyn std::io::Write>, kv: &HashMap<String, String>) -> (Box<dyn std::io::Write>, u64, Vec<String>, usize, Vec<String>) {
     use std::sync::atomic::{AtomicUsize, Ordering};
     use std::sync::Arc;
     let mut rng = StdRng::seed_from_u64(seed);
@@ -898,7 +898,7 @@ fn crash_history(seed: u64, sc: usize, k: Option<usize>, out: Box<dyn std::io::W
                     writeln!(out, "{}", json!({"ev": "DeadStore", "sc": format!("crash-{}-{}", sc, k.unwrap_or(0)),
                         "a": {"during": "Open", "label": msg, "msg": m2}})).unwrap();
                     let _ = std::fs::remove_dir_all(&dir);
-                    return (out, 1, vec![m2], counter.load(Ordering::SeqCst));
+                    return (out, 1, vec![m2], counter.load(Ordering::SeqCst), Vec::new());
                 }
             }
         }
@@ -919,12 +919,17 @@ fn crash_history(seed: u64, sc: usize, k: Option<usize>, out: Box<dyn std::io::W
         crashed: false,
         dead: false,
     };
-    let mut env = Env::new(&sim, &[(a_tip, a_tip)]);
+    // (odd seeds: the peer is half way up first and reaches A's tip right before the second registration, so that
+    //  there are filters left to process then)
+    let first_tip = if seed % 2 == 0 { a_tip } else { sim.chain.ancestor_at(a_tip, (a_len as u64 / 2).max(2)).unwrap() };
+    let mut env = Env::new(&sim, &[(first_tip, a_tip)]);
     env.peers[0].server.filters_batch = 3;
     env.peers[0].server.hashes_batch = 5;
     sim.reset(json!({"mode": "crash", "k": k.unwrap_or(0), "initCrashed": init_crashed}));
     let list1 = vec![(0usize, false, 0u64), (3usize, true, 1u64)];
-    let list2 = vec![(1usize, false, 2u64)];
+    // the second registration starts either low (the scripts batch itself rewinds the filter position) or above
+    // everything filtered so far (only the pending matched blocks make set_scripts rewind)
+    let list2 = vec![(1usize, false, if seed % 2 == 0 { 2u64 } else { a_len as u64 - 1 })];
     let retry = arg_u64(kv, "retry", 1) == 1;
     // the scripted history
     let mut phase = 0;
@@ -937,15 +942,29 @@ fn crash_history(seed: u64, sc: usize, k: Option<usize>, out: Box<dyn std::io::W
             if sim.crashed { sim.crashed = false; env.after_crash(); if retry { continue; } }
             phase = 1;
         }
-        if phase == 1 && round == 3 {
+        if phase == 1 && round == (if seed % 2 == 0 { 3 } else { 1 }) {
             // leave matched blocks pending (a filter batch accepted, nothing proved or downloaded yet): set_scripts
             // then has a record to discard and a filter position to rewind
-            for step in 0..4 {
+            if env.grow(&sim, 0, u64::MAX / 2) {
+                env.send_last_state(&mut sim, 0);
+                if !sim.crashed && !sim.dead {
+                    env.refresh(&mut sim);
+                }
+                while !sim.crashed && !sim.dead && env.answer_proof(&mut sim, 0) {}
+                if !sim.crashed && !sim.dead {
+                    env.refresh(&mut sim);
+                }
+            }
+            for step in 0..16 {
                 if sim.dead || sim.crashed {
                     break;
                 }
-                match step {
-                    0 | 2 => env.filter_tick(&mut sim, 0, true),
+                if sim.state()["mdb"].as_array().map(|a| !a.is_empty()).unwrap_or(false) {
+                    break;
+                }
+                match step % 4 {
+                    0 => env.filter_tick(&mut sim, 1, true),
+                    2 => env.filter_tick(&mut sim, 0, true),
                     _ => {
                         env.answer_filter(&mut sim, 0, interval);
                     }
@@ -984,8 +1003,8 @@ fn crash_history(seed: u64, sc: usize, k: Option<usize>, out: Box<dyn std::io::W
     let panics = sim.panics.clone();
     let out = std::mem::replace(&mut sim.out, Box::new(std::io::sink()));
     let w = counter.load(Ordering::SeqCst);
-    let _ = labels;
-    (out, lines, panics, w)
+    let labels = labels.lock().unwrap().clone();
+    (out, lines, panics, w, labels)
 }
 
 fn run_crash(kv: &HashMap<String, String>) -> i32 {
@@ -998,13 +1017,45 @@ fn run_crash(kv: &HashMap<String, String>) -> i32 {
     let mut points = 0;
     for sc in 0..n {
         let s = seed.wrapping_mul(7919).wrapping_add(sc as u64);
-        let (o, lines, _p, w) = crash_history(s, sc, None, out, kv);
+        let (o, lines, _p, w, labels) = crash_history(s, sc, None, out, kv);
         out = o;
         total += lines;
-        // crash points: all of them, or an evenly spread sample of at most maxk
-        let ks: Vec<usize> = if w <= maxk { (1..=w).collect() } else { (0..maxk).map(|i| 1 + i * w / maxk).collect() };
+        // crash points: all of them, or a sample of at most maxk: the first and the last occurrence of every
+        // distinct pair (previous write, this write) -- a crash point is a place BETWEEN two writes --, the rest
+        // evenly spread
+        let ks: Vec<usize> = if w <= maxk {
+            (1..=w).collect()
+        } else {
+            let mut first: Vec<(String, usize)> = Vec::new();
+            let mut last: HashMap<String, usize> = HashMap::new();
+            for (i, l) in labels.iter().enumerate() {
+                let key = format!("{}>{}", if i == 0 { "" } else { labels[i - 1].as_str() }, l);
+                if !last.contains_key(&key) {
+                    first.push((key.clone(), i + 1));
+                }
+                last.insert(key, i + 1);
+            }
+            let mut ks: Vec<usize> = first.iter().map(|(_, k)| *k).collect();
+            for (key, _) in first.iter() {
+                ks.push(last[key]);
+            }
+            ks.sort();
+            ks.dedup();
+            if ks.len() > maxk {
+                // more pairs than the budget: the first occurrences only, evenly thinned
+                let firsts: Vec<usize> = first.iter().map(|(_, k)| *k).collect();
+                ks = (0..maxk).map(|i| firsts[i * firsts.len() / maxk]).collect();
+            }
+            let room = maxk.saturating_sub(ks.len());
+            for i in 0..room {
+                ks.push(1 + i * w / room.max(1));
+            }
+            ks.sort();
+            ks.dedup();
+            ks
+        };
         for k in ks {
-            let (o, lines, _p, _w) = crash_history(s, sc, Some(k), out, kv);
+            let (o, lines, _p, _w, _l) = crash_history(s, sc, Some(k), out, kv);
             out = o;
             total += lines;
             points += 1;
